@@ -221,6 +221,9 @@ def explore(spec: SeqSpec, report, deadline: float | None = None):
         if c0 not in seen:
             seen[c0] = (ms0, [(0, 0)], (rname, []))
             for clause, detail in pmap(_state_task, [(root, [], c0)])[0]:
+                if clause.startswith('__'):
+                    report.stats.append((clause, detail))
+                    continue
                 report.add_violation(_viol(spec, clause, detail, rname, [], None))
             states_checked += 1
         frontier.append(([], 0))
